@@ -187,6 +187,120 @@ def check_config(rep, prog):
                 and T.fields_in(ar_t[2])[0] == "0" and T.fields_in(ar_t[3])[0] == "1"
         req(ok, "P4", "aspect", cp[0].where(), "Camera::perspective passes aspect = dims.0 / dims.1 of its own frame")
 
+    if "fp" in prog.features:
+        first_person_rules(rep, prog, req)
+
+
+def first_person_rules(rep, prog, req):
+    """P5: the first-person camera, with sin/cos of the two heading angles as indeterminates s, c (azimuth) and S, C
+    (altitude) modulo s^2 + c^2 = S^2 + C^2 = 1 and the normalising factor of orient_z as an opaque positive factor."""
+    from .rules_C18 import TRIG, ANGLE
+    cfg = prog.config
+    FP = "retrofire_core::render::cam::FirstPerson"
+    VEC = "retrofire_core::math::vec::Vector"
+    W2V = "retrofire_core::<render::cam::FirstPerson as render::cam::Mode>::world_to_view"
+    TR = FP + "::translate"
+
+    def trig(fn):
+        def m(it, args, callee, depth):
+            v = A.deref_all(it, args[0])
+            if isinstance(v, tuple) and v[0] == "adt":
+                v = v[3][0]
+            if v == ("f", 0.0):
+                return ("f", 0.0) if fn == "s" else ("f", 1.0)
+            if isinstance(v, tuple) and v[0] == "sym":
+                return S.sym(fn + "_" + v[1])
+            raise A.Undecided("sin/cos of a compound angle %r" % (v,))
+        return m
+
+    def m_sin_cos(it, args, callee, depth):
+        return ("tuple", [trig("s")(it, args, callee, depth), trig("c")(it, args, callee, depth)])
+    captured = {}
+
+    def m_orient_z(it, args, callee, depth):
+        captured["args"] = [A.deref_all(it, a) for a in args]
+        return NotImplemented
+    models = dict(TRIG)
+    models.update({"angle::Angle::sin_cos": m_sin_cos, "angle::Angle::sin": trig("s"), "angle::Angle::cos": trig("c"),
+                   "::approx_eq": lambda *a: 0, "recip_sqrt": lambda it, args, c, d: ("symop", "rsqrt", A.deref_all(it, args[0]), None),
+                   "mat::orient_z": m_orient_z})
+    rel = [("s_az", {(): Fraction(1), ("c_az", "c_az"): Fraction(-1)}), ("s_alt", {(): Fraction(1), ("c_alt", "c_alt"): Fraction(-1)})]
+    red = lambda p: S.reduce_mod(p, rel)  # noqa: E731
+    heading = ("adt", VEC, "Vector", [("array", [S.sym("r"), S.sym("az"), S.sym("alt")]), ("tuple", [])])
+    fp = ("adt", FP, "FirstPerson", [S.vector(["px", "py", "pz"]), heading])
+    generic = lambda op, a, b: {"Eq": False, "Ne": True}.get(op)  # noqa: E731
+    wb = prog.body(W2V)
+    it = S.interp(prog, models=models, oracle=generic)
+    try:
+        m = it.call_body(wb, [S.ref_to(fp)])
+        pm = [S.to_poly(c) for c in S.components(it, m)]
+        hint = [S.to_poly(c) for c in S.components(it, captured["args"][1])]
+        fwd = [S.to_poly(c) for c in S.components(it, captured["args"][0])]
+    except (A.Undecided, A.Panic, S.NotPolynomial, KeyError) as e:
+        raise common.Infra("C08.P5: FirstPerson::world_to_view could not be evaluated symbolically (%s)" % e)
+    rows = [[pm[i * 4 + j] for j in range(4)] for i in range(3)]
+
+    def dot(u, v):
+        acc = {}
+        for a_, b_ in zip(u, v):
+            acc = PL.padd(acc, PL.pmul(a_, b_))
+        return acc
+
+    def cross(u, v):
+        neg = lambda q: {k: -c for k, c in q.items()}  # noqa: E731
+        return [PL.padd(PL.pmul(u[1], v[2]), neg(PL.pmul(u[2], v[1]))), PL.padd(PL.pmul(u[2], v[0]), neg(PL.pmul(u[0], v[2]))),
+                PL.padd(PL.pmul(u[0], v[1]), neg(PL.pmul(u[1], v[0])))]
+    pos4 = [{("px",): Fraction(1)}, {("py",): Fraction(1)}, {("pz",): Fraction(1)}, {(): Fraction(1)}]
+    req(all(red(dot(r_, pos4)) == {} for r_ in rows), "P5", "origin", wb.where(), "first-person view transform takes the camera position to the origin")
+    lin = [r_[:3] for r_ in rows]
+    req(all(red(dot(lin[i], lin[j])) == {} for i, j in ((0, 1), (1, 2), (0, 2))), "P5", "orthogonal", wb.where(),
+        "first-person view transform: the three view axes are pairwise orthogonal (modulo sin^2 + cos^2 = 1)")
+    req(red(dot(lin[0], fwd)) == {} and red(dot(lin[1], fwd)) == {}, "P5", "look-axis", wb.where(),
+        "first-person view transform sends the heading direction onto the depth axis (x = y = 0)")
+    zf = red(dot(lin[2], fwd))
+    req(zf in ({("r", "r"): Fraction(1)}, {("r",): Fraction(1)}), "P5", "look-positive", wb.where(),
+        "first-person view transform sends the heading direction to POSITIVE depth (z = r^2 or r)")
+    req(red(lin[0][1]) == {}, "P5", "no-roll", wb.where(), "first-person view transform: the camera's right axis stays horizontal (no y component)")
+    # the hint handed to orient_z must never be parallel to the heading, straight up and down included (altitude is clamped to [-90, 90] degrees)
+    c2 = red(dot(cross(hint, fwd), cross(hint, fwd)))
+    okc = len(c2) == 1 and set(c2) <= {("r", "r")} and list(c2.values())[0] > 0
+    wit = None
+    if not okc:
+        for (c_az, s_az) in ((1, 0), (0, 1), (Fraction(3, 5), Fraction(4, 5))):
+            for s_alt in (1, -1):
+                pt = {"c_az": Fraction(c_az), "s_az": Fraction(s_az), "c_alt": Fraction(0), "s_alt": Fraction(s_alt), "r": Fraction(1)}
+                try:
+                    val = sum(c * __import__("functools").reduce(lambda x, y: x * y, [pt[v] for v in mono], Fraction(1)) for mono, c in c2.items())
+                except KeyError:
+                    val = None
+                if val == 0:
+                    wit = "azimuth (cos, sin) = (%s, %s), altitude %s90 degrees" % (c_az, s_az, "+" if s_alt > 0 else "-")
+                    break
+            if wit:
+                break
+        if not wit:
+            raise common.Infra("C08.P5: |hint x heading|^2 = %s is not a positive multiple of r^2 and no degenerate heading was found; rule needs re-confirmation" % (c2,))
+    rep.inst("C08.P5", "orient_z hint vs heading: |hint x heading|^2 = %s: %s" % (c2, "never degenerate" if okc else "DEGENERATE at " + wit), config=cfg)
+    if not okc:
+        rep.violate("C08.P5", "P5|hint-degenerate", wb.where(),
+                    "first-person view transform: the sideways hint given to orient_z becomes parallel to (or vanishes against) the heading at %s, "
+                    "a heading rotate_to() allows: |hint x heading|^2 = %s is 0 there and the basis is normalised from a zero vector" % (wit, c2), config=cfg)
+    # translate(): displacement along the HORIZONTAL heading, right and up axes, whatever the altitude
+    tb = prog.body(TR)
+    cell = A.Frame(None)
+    cell.locals[0] = A.copy_val(fp)
+    it = S.interp(prog, models=models, oracle=generic)
+    try:
+        it.call_body(tb, [("ref", cell, 0, []), S.vector(["dx", "dy", "dz"])])
+        newpos = [S.to_poly(c) for c in S.components(it, cell.locals[0][3][0])]
+    except (A.Undecided, A.Panic, S.NotPolynomial) as e:
+        raise common.Infra("C08.P5: FirstPerson::translate could not be evaluated symbolically (%s)" % e)
+    want = [PL.padd({("px",): Fraction(1)}, PL.padd({("dx", "s_az"): Fraction(1)}, {("c_az", "dz"): Fraction(1)})),
+            PL.padd({("py",): Fraction(1)}, {("dy",): Fraction(1)}),
+            PL.padd({("pz",): Fraction(1)}, PL.padd({("c_az", "dx"): Fraction(-1)}, {("dz", "s_az"): Fraction(1)}))]
+    req(newpos == want, "P5", "translate", tb.where(),
+        "FirstPerson::translate(d) moves the position by dx*(sin az, 0, -cos az) + dy*(0, 1, 0) + dz*(cos az, 0, sin az), independent of the altitude")
+
 
 def _cut_intersect(t, leaves):
     """Replace every `(intersect(..).Rect.<side> as Some).0` sub-term by a constant, recording the side."""
